@@ -44,6 +44,7 @@ func bombIn(container, prefix, suffix string, padByte byte, n int64) string {
 	}
 	_, _ = w.Write([]byte(prefix))
 	chunk := bytes.Repeat([]byte{padByte}, 1<<20)
+	written := int64(0)
 	for n > 0 {
 		k := int64(len(chunk))
 		if k > n {
@@ -51,6 +52,11 @@ func bombIn(container, prefix, suffix string, padByte byte, n int64) string {
 		}
 		_, _ = w.Write(chunk[:k])
 		n -= k
+		if written += k; container == "multi" && written%(8<<20) == 0 && n > 0 {
+			// several complete DEFLATE streams back to back, each inflating to 8 MiB
+			_ = w.Close()
+			w, _ = flate.NewWriter(enc, 6)
+		}
 	}
 	_, _ = w.Write([]byte(suffix))
 	_ = w.Close()
@@ -98,6 +104,9 @@ func c14Run(r *core.Run, idx int, rng *rand.Rand) {
 		variant{"before_root", "sso_query", true, true, false}, variant{"attribute", "sso_form", true, true, false}, variant{"text", "logout_query", true, true, false}, variant{"comment/zlib", "sso_query", true, true, false})
 	// other containers around the same DEFLATE data (what zlib / gzip producing peers send)
 	variants = append(variants, variant{"comment/zlib", "sso_query", true, false, false}, variant{"after_root/zlib", "logout_form", true, false, false}, variant{"text/gzip", "sso_form", true, false, false}, variant{"comment/gzip", "logout_query", true, false, false})
+	// the same data as many complete DEFLATE streams back to back, each one small (a decoder may stop after the first
+	// stream or read them all: either way what it materialises is bounded; acceptance is not judged for these)
+	variants = append(variants, variant{"comment/multi", "sso_query", true, false, false}, variant{"text/multi", "logout_form", true, false, false}, variant{"after_root/multi", "sso_form", true, false, false})
 	// verbose logging switched on at run time (what gets logged about a request must be bounded too); other methods
 	// than GET and POST on the same routes (the form parser reads the query for all of them, the body for PUT / PATCH)
 	variants = append(variants, variant{"comment", "sso_query", true, false, true}, variant{"text", "logout_form", true, false, true}, variant{"attribute/zlib", "sso_form", true, false, true})
@@ -240,7 +249,7 @@ func c14Run(r *core.Run, idx int, rng *rand.Rand) {
 				r.Violate(core.Violation{Clause: "allocation_ceiling", Class: class, Reason: fmt.Sprintf("one request of %d bytes allocated %d MiB (ceiling 512 MiB)", len(param), res.Delta>>20), Workload: wl, Index: idx, Case: desc})
 				stop = true
 			}
-			if size >= 32<<20 && res.Accepted {
+			if size >= 32<<20 && res.Accepted && container != "multi" {
 				r.Violate(core.Violation{Clause: "bomb_accepted", Class: class, Reason: fmt.Sprintf("a payload inflating to %d MiB was accepted", size>>20), Workload: wl, Index: idx, Case: desc})
 			}
 			if size >= 256<<20 {
@@ -270,7 +279,7 @@ func init() {
 		TimeoutQuick: 10 * time.Minute, TimeoutThorough: 40 * time.Minute,
 		Build: func(c *Ctx) []core.Workload {
 			r := c.Run
-			r.Rule = "DEFLATE payloads inflating to 1, 4, 16, 36, 64, 256 MiB (thorough: + 1 GiB) with the padding in a comment, in text, in an attribute value, in front of or after the root element or as pure garbage, also while the key storage is failing, while the log level is switched to trace, and with the methods HEAD / PUT / PATCH / DELETE, as raw DEFLATE and inside zlib / gzip containers, inside otherwise valid and invalid AuthnRequests / LogoutRequests, sent to the SSO endpoint by query and by form and to the logout endpoint by query and by form; strictly sequential in a dedicated child process. Monitor: runtime.MemStats.TotalAlloc delta around one ServeHTTP (ceiling 512 MiB), flatness (256 MiB / 1 GiB bombs may cost at most 1.5 x the 64 MiB bomb + 16 MiB), payloads inflating to >= 32 MiB not accepted. Sizes ascend and the run stops at the first ceiling/flatness violation. Distinct = (endpoint, placement, validity, size)."
+			r.Rule = "DEFLATE payloads inflating to 1, 4, 16, 36, 64, 256 MiB (thorough: + 1 GiB) with the padding in a comment, in text, in an attribute value, in front of or after the root element or as pure garbage, also while the key storage is failing, while the log level is switched to trace, and with the methods HEAD / PUT / PATCH / DELETE, as raw DEFLATE, inside zlib / gzip containers and as many complete DEFLATE streams of 8 MiB back to back, inside otherwise valid and invalid AuthnRequests / LogoutRequests, sent to the SSO endpoint by query and by form and to the logout endpoint by query and by form; strictly sequential in a dedicated child process. Monitor: runtime.MemStats.TotalAlloc delta around one ServeHTTP (ceiling 512 MiB), flatness (256 MiB / 1 GiB bombs may cost at most 1.5 x the 64 MiB bomb + 16 MiB), payloads inflating to >= 32 MiB not accepted. Sizes ascend and the run stops at the first ceiling/flatness violation. Distinct = (endpoint, placement, validity, size)."
 			r.Assume("TotalAlloc (cumulative allocation) is measured, not resident memory; thresholds are loose so that any reasonable cap (8-32 MiB) passes")
 			r.Require("payloads", int64(c.Pick(100, 190)))
 			r.Require("payloads_during_key_storage_fault", 10)
